@@ -69,7 +69,10 @@ func bindQueue(c *Ctx, r *Rec) *queueRoles {
 	}
 	qr.listF = c.fieldOfIface(q, "collection", "ListLike")
 	if qr.chanF == nil || qr.capF == nil || qr.mutexF == nil || qr.listF == nil {
-		r.undecided("bind", "collection."+q.Obj().Name(), "", "cannot bind channel/capacity/mutex/list fields of the queue by type")
+		// the fields are private: a queue whose token channel, capacity, mutex and value list
+		// are not fields of these types (wrapped in a type of their own, say) is a different
+		// design that the queue rules claim nothing about
+		r.skip("bind", "collection.QueueLike/fields", c.pos(q.Obj().Pos()), "cannot bind channel/capacity/mutex/list fields of the queue by type: the queue rules are bound to a queue that holds a token channel, an integer capacity, a mutex and a value list directly")
 		return nil
 	}
 	return qr
@@ -121,6 +124,49 @@ func runC04(c *Ctx, r *Rec) {
 					unguarded = append(unguarded, name)
 				}
 			}
+		}
+		// an access inside an unexported helper is judged where the helper is called: guarded when
+		// every call site holds the mutex, otherwise an unguarded access of the calling method
+		// (reported under the exported methods it is reached from, not under the helper's name)
+		for round := 0; round < 3; round++ {
+			var next []string
+			for _, h := range dedup(unguarded) {
+				if ast.IsExported(h) {
+					next = append(next, h)
+					continue
+				}
+				hfn := c.funcOf(ms[h])
+				callers := 0
+				for _, cname := range sortedKeys(ms) {
+					cfd := ms[cname]
+					if cname == h {
+						continue
+					}
+					var sites []ast.Node
+					ast.Inspect(cfd.Body, func(x ast.Node) bool {
+						if call, ok := x.(*ast.CallExpr); ok {
+							if cf := calleeOf(info, call); cf != nil && hfn != nil && cf.Origin() == hfn.Origin() {
+								sites = append(sites, call)
+							}
+						}
+						return true
+					})
+					if len(sites) == 0 {
+						continue
+					}
+					callers++
+					li := computeLock(newFG(info, cfd.Body), info, mkey)
+					for _, site := range sites {
+						if held, ok := li.heldAt(site); !ok || !held {
+							next = append(next, cname)
+						}
+					}
+				}
+				if callers == 0 {
+					next = append(next, h)
+				}
+			}
+			unguarded = dedup(next)
 		}
 		unguarded = dedup(unguarded)
 		sort.Strings(unguarded)
